@@ -382,3 +382,21 @@ def check_reattach_wakes_deferred(ctx, consequence: str):
         covers = bool(tt.get((1, 0)))
         ok = ok or (consumers and covers)
     ctx.check(ok, "step.STEP_SCHEMA", "reattaching a node clears `deferred` of its consumers", consequence, "trigger on node.detached 1 -> 0", where="trigger " + (", ".join(t.name for t in trigs) or "(none)"))
+
+
+def check_recreated_step_clean_slate(ctx, consequence: str):
+    """A step row that is recreated (partial recycle in Trellis.create) loses the edges of its former declaration in
+    both directions: inputs in Trellis.create, outputs in Step.initialize_row."""
+    import re
+
+    cr = ctx.prog.func("trellis.Trellis.create")
+    ctx.check(any(callee_name(c) == "del_all_sources" for c in calls_in(cr.node)), cr.fq, "the recycle branch cuts the input edges of the recreated node", "old input edges survive a re-creation", "del_all_sources")
+    ir = ctx.prog.func("step.Step.initialize_row")
+    # the cut may be inline or through a Node helper that deletes `dependency WHERE source = <self>`
+    cands = [ir] + [h for h in (ctx.prog.cls("trellis.Node").methods.get(callee_name(c)) for c in calls_in(ir.node) if isinstance(c.func, ast.Attribute) and ast.unparse(c.func.value) == "self") if h is not None]
+    ok = False
+    for fi in cands:
+        for st in ctx.sql.stmts_in(fi.fq):
+            if st.kind == "DELETE" and any(w[1] == "dependency" for w in st.writes) and re.search(r"WHERE source = (\?|:\w+)\s*$", re.sub(r"\s+", " ", st.text).strip()):
+                ok = True
+    ctx.check(ok, ir.fq, "a recreated step starts without output edges (they are declared anew)", consequence, "DELETE FROM dependency WHERE source = :node", where=ctx.where_of(ir))
